@@ -55,3 +55,49 @@ def lists_upto(alphabet, maxlen):
         layer = [x + [a] for x in layer for a in alphabet]
         res += layer
     return res
+
+
+def consumer_lines(diff):
+    """what unittestDeepEqual reports for a diffLines result: one fenced hunk per maximal run of Remove/Add blocks"""
+    lines = []
+    pend = []
+    for b in diff:
+        if b['type'] == 'Remove':
+            pend += ['--- ' + x for x in b['lines']]
+        elif b['type'] == 'Add':
+            pend += ['+++ ' + x for x in b['lines']]
+        elif pend:
+            lines += ['Deep-equal:', '', '```'] + pend + ['```']
+            pend = []
+    if pend:
+        lines += ['Deep-equal:', '', '```'] + pend + ['```']
+    return lines
+
+
+def check_consumer(pairs, res):
+    """-> list of (class, detail).  Equal texts: no failure entry.  Different texts: exactly one entry, in order; it is the
+    rendering of the diffLines result of the same pair, and (independently of which diff was chosen) taking the `---` lines
+    out of the left lines and the `+++` lines out of the right lines leaves the same multiset of lines."""
+    from collections import Counter
+    if not isinstance(res, dict) or not isinstance(res.get('failures'), list) or not isinstance(res.get('diffs'), list):
+        return [('consumer-run-failed', res)]
+    bad = []
+    if len(res['diffs']) != len(pairs):
+        return [('consumer-run-incomplete', {'pairs': len(pairs), 'diffs': len(res['diffs'])})]
+    expected = [(a, b, d) for (a, b), d in zip(pairs, res['diffs']) if a != b]
+    if len(res['failures']) != len(expected):
+        return [('consumer-failure-count', {'expected': len(expected), 'got': len(res['failures'])})]
+    for (a, b, d), entry in zip(expected, res['failures']):
+        if check(a, b, {'ok': d}) is not None:
+            bad.append(('consumer-saw-a-bad-diff', {'left': a, 'right': b, 'diff': d}))
+            continue
+        if entry != consumer_lines(d):
+            bad.append(('consumer-report-differs-from-diff', {'left': a, 'right': b, 'expected': consumer_lines(d), 'got': entry}))
+            continue
+        removed = Counter(x[4:] for x in entry if x.startswith('--- '))
+        added = Counter(x[4:] for x in entry if x.startswith('+++ '))
+        left = Counter(ref_split(a))
+        right = Counter(ref_split(b))
+        if any(removed[k] > left[k] for k in removed) or any(added[k] > right[k] for k in added) or (left - removed) != (right - added):
+            bad.append(('consumer-report-inconsistent-with-inputs', {'left': a, 'right': b, 'got': entry}))
+    return bad
